@@ -1,6 +1,8 @@
 """Per-property job tables for ./check."""
 
 SETUP_FLAVOURS = ["debug", "release"]
+HOOK_COMMITS = ["7097985"]
+NOT_YET = {}
 
 DIFF_ASSUME = [
     "rotogen's reference interpreter (harness/rvmon/src/rg/interp.rs) implements the documented semantics",
@@ -23,6 +25,10 @@ def diff_jobs(profile, quick, thorough, corpus_prop):
 
 PROPS = {
     "C01": {
+        "claim": "Differential runtime monitoring: the JIT-compiled program and an independent reference interpreter are run on the same generated well-typed programs and boundary/random inputs; return value and ordered host-call log must agree. Sampled, not exhaustive: held on the programs and inputs observed.",
+        "design_ref": "DESIGN.md §4 C01",
+        "level_note": "Trusted base: rotogen's interpreter and printer (harness/rvmon/src/rg); programs are well-typed by construction. JIT code is only observed through results and host calls.",
+        "technique": "differential runtime monitoring against a reference interpreter (generated programs, boundary inputs)",
         "rule": "rotogen 'scalar' profile: random well-typed programs over all integer widths, floats, bool, char, "
                 "Option and small user enums/records, 1-5 functions with fuel-bounded recursion, each run on 4 (quick) / 8 "
                 "(thorough) input vectors mixing boundary and random words; a case is non-trivial if at least one input "
@@ -34,6 +40,10 @@ PROPS = {
         "budget": {"quick": 200, "thorough": 1500},
     },
     "C02": {
+        "claim": "Differential runtime monitoring of aggregate programs: every leaf field is emitted through logging host functions after each mutation and compared with the interpreter's value-semantics model; the drop ledger and allocation balance watch the generated clone/drop/eq code. Sampled programs and layouts.",
+        "design_ref": "DESIGN.md §4 C02",
+        "level_note": "Trusted base as C01; equality of aggregates containing NaN is treated as unspecified. Layouts are sampled, not enumerated.",
+        "technique": "differential runtime monitoring + drop ledger + allocation balance on generated aggregate programs",
         "rule": "rotogen 'aggregate' profile: programs declaring 0-5 record/enum types (generic, nested, anonymous; random "
                 "field orders over all scalar widths, String, List, Option, Trk) that copy, mutate, compare, match and emit "
                 "every leaf field through out_* after mutations; non-trivial/distinct as for C01",
@@ -43,6 +53,10 @@ PROPS = {
         "budget": {"quick": 200, "thorough": 1500},
     },
     "C03": {
+        "claim": "Online monitor at the host boundary: every instance of a drop-tracked registered type carries an id and a canary; the ledger flags double drop, drop of garbage, read after drop and leaks the moment they happen, and a counting allocator checks that the heap balance returns to zero after each call. Sampled programs x steering inputs.",
+        "design_ref": "DESIGN.md §4 C03",
+        "level_note": "Trusted base: the ledger (harness/rvmon/src/host.rs) and counting allocator (alloc.rs). Known-defect patterns are excluded from the random stream and exercised by corpus witnesses (KNOWN_FINDINGS.txt).",
+        "technique": "online drop-ledger monitor (per-instance ids, canaries) + allocation-balance monitor at the host boundary",
         "rule": "rotogen 'ownership' profile: programs that create, clone, store, pass and discard drop-tracked host values "
                 "(24-byte Trk), strings and lists in every construct; the ledger checks each instance id is dropped exactly "
                 "once and the allocation balance returns to zero after the call; non-trivial = ran and produced clone/drop "
@@ -54,6 +68,10 @@ PROPS = {
         "budget": {"quick": 200, "thorough": 1500},
     },
     "C08": {
+        "claim": "Trace monitor: the ordered log of host calls (function, argument values) made during one call is compared event by event with the reference interpreter's log for programs whose sub-expressions are effectful host calls. Sampled programs.",
+        "design_ref": "DESIGN.md §4 C08",
+        "level_note": "Trusted base as C01; only effects that reach a host function are visible.",
+        "technique": "host-call trace monitor compared with reference interpreter trace",
         "rule": "rotogen 'effects' profile: 70% of leaves are logged host calls, so evaluation order and multiplicity of "
                 "every operand, argument, field, element, f-string part, condition, guard and scrutinee is visible in the "
                 "ordered host-call log, which is compared with the interpreter's log",
@@ -61,5 +79,31 @@ PROPS = {
         "assumptions": DIFF_ASSUME,
         "min_tags": 100,
         "budget": {"quick": 200, "thorough": 1500},
+    },
+    "C10": {
+        "claim": "Fault enumeration by process supervision: every enumerated (operator, type, operand pair) and built-in x edge-argument case runs between a begin and an end line of a supervised worker; a death (signal, abort) is attributed to that case. The enumerated edge space is covered completely on every run.",
+        "design_ref": "DESIGN.md §4 C10",
+        "level_note": "Only survival (plus the wrapped arithmetic result) is judged; values of built-ins are C17's. Exhaustive over the enumerated edge classes, not over all values.",
+        "technique": "supervised worker processes; per-case attribution of signals/aborts (survival oracle)",
+        "rule": "enumerated cases, one per worker begin/end pair: every (operator, integer type, operand pair) with operands "
+                "from {MIN, MIN+1, -1, 0, 1, 2, MAX-1, MAX} (incl. compound assignment), unary minus, all six comparisons, "
+                "float operators and methods on 22 special values, string views / list methods with indices around 0, len "
+                "and u64::MAX, counts, every prefix length 0..=255 for both families, StringBuf, to_string of every "
+                "primitive at its edges; oracle = the worker survives (and, where the language defines the result, the "
+                "emitted value equals the wrapped result); distinct = distinct (script, input) pairs",
+        "jobs": [
+            {"family": "survive", "flavour": "release", "cases": {"quick": 0, "thorough": 0}, "case_timeout": 20},
+            {"family": "survive", "flavour": "debug", "cases": {"quick": 0, "thorough": 0}, "case_timeout": 20,
+             "tiers": ["thorough"], "args": {"stream": "debug"}},
+            {"family": "corpus", "flavour": "release", "cases": {"quick": 0, "thorough": 0}, "args": {"prop": "C10"}, "shards": 1},
+        ],
+        "level": "fault_enumeration",
+        "exhaustive": True,
+        "hang_is_violation": True,
+        "assumptions": ["the documented resource limits (unbounded recursion, non-terminating loops, memory exhaustion) are "
+                        "never approached by the workload", "a worker death is attributed to the case between whose begin and "
+                        "end lines it happened"],
+        "min_cases": {"quick": 3000, "thorough": 3000},
+        "budget": {"quick": 240, "thorough": 900},
     },
 }
